@@ -410,6 +410,26 @@ impl<K: Hash + Eq, KH: KeyHasher<K>> TinyLFU<K, KH> {
     }
 }
 
+// ---------------------------------------------------------------------------
+// Verification hooks (cargo feature `verif-hooks`, off by default).
+// ---------------------------------------------------------------------------
+#[cfg(feature = "verif-hooks")]
+impl<K, KH> TinyLFU<K, KH> {
+    /// Snapshot of the private estimator state.
+    #[doc(hidden)]
+    pub fn verif_state(&self) -> crate::verif::TinyLFUState {
+        let (rows, seeds, mask) = self.ctr.verif_state();
+        crate::verif::TinyLFUState {
+            w: self.w,
+            samples: self.samples,
+            doorkeeper: self.doorkeeper.verif_bits(),
+            rows,
+            seeds,
+            mask,
+        }
+    }
+}
+
 #[cfg(test)]
 pub(crate) mod test {
     use core::hash::Hasher;
